@@ -692,7 +692,8 @@ def translate_procedure(src, name, known):
 #   * integer index expressions are printed in a polynomial normal form (loop variables outermost first, then size parameters
 #     in signature order, numeric coefficient last; higher-degree terms first, constant last);
 #   * loop variables are renamed by nesting depth (i, j, k, l3, …), malloc'd arrays by order of allocation (buf0, buf1, …);
-#   * `#pragma omp parallel for [private(...)]` is dropped (sequential semantics), malloc'd contents are a parameter.
+#   * `#pragma omp parallel for` with any private/shared/schedule/default clauses (also over continuation lines) is dropped
+#     (sequential semantics), malloc'd contents are a parameter.
 # Anything outside the subset raises Unsupported (proof step broken).  NOT made canonical (these change the printed term and thus
 # lead to `no-failing-input-found` even if behaviour is preserved): a different summation order or blocking of the q-point loop,
 # loop fusion/fission, an `if` around several statements one of which is a loop, accumulation into scalar locals.
@@ -837,10 +838,13 @@ class CanonProc:
 
     def parse_body(self, fname, body, env, depth):
         lines = []
+        body = re.sub(r"\\\s*\n", " ", body)  # preprocessor line continuations
         for ln in body.split("\n"):
-            st = ln.strip()
+            st = " ".join(ln.split())
             if st.startswith("#"):
-                if not re.fullmatch(r"#ifdef _OPENMP|#endif|#pragma omp parallel for( private\([\w, ]*\))?", st):
+                # the pragma only distributes the outer loop over threads (clauses: private / schedule / default / shared lists); the
+                # term has the sequential semantics whatever they say — thread-independence is C13's obligation
+                if not re.fullmatch(r"#ifdef _OPENMP|#endif|#pragma omp parallel for( ?(private|shared|firstprivate) ?\([\w, ]*\)| ?schedule ?\( ?(static|dynamic|guided|auto|runtime)( ?, ?\d+)? ?\)| ?default ?\( ?(shared|none) ?\))*", st):
                     raise Unsupported("%s: preprocessor line %r" % (fname, st))
                 continue
             lines.append(ln)
